@@ -96,7 +96,7 @@ def processLine (prop : String) (line : String) : String := Id.run do
     -- exact model
     let run (f : Fmt) : String := Id.run do
       let xin : Array (XQ f) := (bits.map (decodeBits f)).toArray
-      let ex := runOp op variant ints xin
+      let ex := runOpV op variant ints xin
       if ex.cls == "unsupported" then return s!"{id} model-unsupported"
       let implVals : List (XQ f) := impl.bits.map (decodeBits f)
       let wantCls := expectedCls op variant ex.cls
@@ -111,13 +111,13 @@ def processLine (prop : String) (line : String) : String := Id.run do
         match f with
         | .f64 =>
           let tin : Array Float := (bits.map (IOScalar.ofBits (α := Float))).toArray
-          let tw := runOp op variant ints tin
+          let tw := runOpV op variant ints tin
           let c := expectedCls op variant tw.cls
           (c, c == impl.cls && (impl.cls != "ok" || (cmpTwin impl.bits tw.vals && tw.flags == impl.flags))
                 && (!(impl.cls == "err" || impl.cls == "panic") || tw.label == impl.label || impl.label == "?"))
         | .f32 =>
           let tin : Array Float32 := (bits.map (IOScalar.ofBits (α := Float32))).toArray
-          let tw := runOp op variant ints tin
+          let tw := runOpV op variant ints tin
           let c := expectedCls op variant tw.cls
           (c, c == impl.cls && (impl.cls != "ok" || (cmpTwin impl.bits tw.vals && tw.flags == impl.flags))
                 && (!(impl.cls == "err" || impl.cls == "panic") || tw.label == impl.label || impl.label == "?"))
@@ -131,7 +131,7 @@ def processLine (prop : String) (line : String) : String := Id.run do
       -- oracle on the implementation's outputs
       let oc : Oracle.Case := {
         prop, op, variant, ints, fmt := f,
-        inp := xin.map xqToOpt, cls := impl.cls, label := impl.label,
+        inp := xin.map xqToOpt, inpClass := xin.map xqClass, cls := impl.cls, label := impl.label,
         out := (implVals.map xqToOpt).toArray, flags := impl.flags,
         exact := (ex.vals.map xqToOpt).toArray, exactCls := ex.cls,
         rej := (match impl.rej with | some r => xqToOpt (decodeBits .f64 r) | none => none),
